@@ -15,6 +15,7 @@ Definition handlers : list (str * (list str -> str)) :=
     ([102; 115; 102], run_fsf);    (* "fsf" *)
     ([104; 105; 115; 116], run_hist); (* "hist" *)
     ([102; 104; 105; 115; 116], run_fhist); (* "fhist" *)
+    ([104; 100; 105; 114], run_hdir); (* "hdir" *)
     ([114; 100; 109], run_rdm);     (* "rdm" *)
     ([118; 102; 121], run_vfy);     (* "vfy" *)
     ([115; 99; 104; 101; 100], run_sched); (* "sched" *)
